@@ -585,9 +585,9 @@ pub fn run_testers(a: &Args, shared: &SharedReport, which: &str) {
         let mut r = shared.lock().unwrap();
         r.rule = "every event sequence (invocations and returns, return values from the whole return alphabet, operations left in flight) within the bound, for three sequential specifications; each prefix is a case; ill-formed events and their continuations from every short prefix; non-trivial = at least two operations of which two are completed or in flight".into();
         r.bounds = if th {
-            json!({"threads_ops": "2 threads <=4 operations (all three specs) + 3 threads <=3 operations (all three specs) + 3 threads <=4 operations (register, write-once register)", "illformed": "from every prefix of <=4 events, continuations of length <=2", "clone_test": "prefixes of <=4 events x every next event"})
+            json!({"threads_ops": "2 threads <=4 operations (all three specs) + 3 threads <=3 operations (all three specs) + 3 threads <=4 operations (register, write-once register) + 2 threads <=5 operations (register)", "illformed": "from every prefix of <=4 events, continuations of length <=2", "clone_test": "prefixes of <=4 events x every next event"})
         } else {
-            json!({"threads_ops": "2 threads <=4 operations (register, write-once register), <=3 (vec) + 3 threads <=3 operations (register)", "illformed": "from every prefix of <=3 events, continuations of length <=2", "clone_test": "prefixes of <=3 events x every next event"})
+            json!({"threads_ops": "2 threads <=4 operations (register, write-once register; vec <=3) + 3 threads <=3 operations (all three specs)", "illformed": "from every prefix of <=3 events, continuations of length <=2", "clone_test": "prefixes of <=3 events x every next event"})
         };
     }
     if th {
@@ -601,6 +601,8 @@ pub fn run_testers(a: &Args, shared: &SharedReport, which: &str) {
         let b4 = Bounds { threads: 3, max_ops: 4, illformed_depth: 0, clone_depth: 0 };
         run_spec(register_def(), &b4, which, a, shared);
         run_spec(woregister_def(), &b4, which, a, shared);
+        let b5 = Bounds { threads: 2, max_ops: 5, illformed_depth: 0, clone_depth: 0 };
+        run_spec(register_def(), &b5, which, a, shared);
     } else {
         let b = Bounds { threads: 2, max_ops: 4, illformed_depth: 3, clone_depth: 3 };
         run_spec(register_def(), &b, which, a, shared);
@@ -609,6 +611,8 @@ pub fn run_testers(a: &Args, shared: &SharedReport, which: &str) {
         run_spec(vec_def(), &bv, which, a, shared);
         let b3 = Bounds { threads: 3, max_ops: 3, illformed_depth: 1, clone_depth: 1 };
         run_spec(register_def(), &b3, which, a, shared);
+        run_spec(woregister_def(), &b3, which, a, shared);
+        run_spec(vec_def(), &b3, which, a, shared);
     }
 }
 
